@@ -337,13 +337,13 @@ def install(sim=None, keep_events=True, contracts=False, wrap_leaves=True, max_e
         if 'settleAll' in orig:
             f_all = orig['settleAll']
 
-            def settleAll():
+            def settleAll(*a, **k):
                 prev = rec.phase
                 rec.phase = 'settling'
                 rec.emit('settleAll', None, pending_count(), None)
                 before = {k: v[0].__dict__.get('value') for k, v in rec.pending.items()}
                 try:
-                    return f_all()
+                    return f_all(*a, **k)
                 finally:
                     # public effect of settling: the value each prepared wire holds now.  A library that settles
                     # without calling Wire.settle() (refactored internals) is observed here instead.
@@ -365,12 +365,12 @@ def install(sim=None, keep_events=True, contracts=False, wrap_leaves=True, max_e
 
         o_init = S.Simulator.__init__
 
-        def __init__(self, sys):
+        def __init__(self, sys, *a, **k):
             prev = rec.phase
             rec.phase = 'construct'
             rec.emit('construct', self, None, None)
             try:
-                return o_init(self, sys)
+                return o_init(self, sys, *a, **k)
             finally:
                 rec.emit('constructed', self, None, pending_count())
                 rec.phase = prev
@@ -378,9 +378,9 @@ def install(sim=None, keep_events=True, contracts=False, wrap_leaves=True, max_e
 
         o_sort = S.Simulator.topologicalSort
 
-        def topologicalSort(self):
+        def topologicalSort(self, *a, **k):
             try:
-                return o_sort(self)
+                return o_sort(self, *a, **k)
             finally:
                 rec.emit('sort', self, None, len(getattr(self, 'propagatables', ())))
                 if rec.wrap_leaves:
@@ -389,9 +389,9 @@ def install(sim=None, keep_events=True, contracts=False, wrap_leaves=True, max_e
 
         o_pall = S.Simulator.propagateAll
 
-        def propagateAll(self):
+        def propagateAll(self, *a, **k):
             rec.emit('propagateAll', self, None, None)
-            return o_pall(self)
+            return o_pall(self, *a, **k)
         patch(S.Simulator, 'propagateAll', propagateAll)
 
         o_clk = S.Simulator.clk
@@ -409,14 +409,14 @@ def install(sim=None, keep_events=True, contracts=False, wrap_leaves=True, max_e
 
         o_cyc = S.Simulator._clk_cycle
 
-        def _clk_cycle(self):
+        def _clk_cycle(self, *a, **k):
             prev = rec.phase
             rec.cycle += 1
             rec.in_cycle = True
             rec.phase = 'clocking'
             rec.emit('cycle', self, self.total_clks, None)
             try:
-                return o_cyc(self)
+                return o_cyc(self, *a, **k)
             finally:
                 rec.in_cycle = False
                 rec.phase = 'idle'
@@ -426,22 +426,22 @@ def install(sim=None, keep_events=True, contracts=False, wrap_leaves=True, max_e
 
         o_notify = S.Simulator._notifyListeners
 
-        def _notifyListeners(self):
+        def _notifyListeners(self, *a, **k):
             prev = rec.phase
             rec.phase = 'notify'
             rec.emit('notify', self, None, len(self.listeners))
             try:
-                return o_notify(self)
+                return o_notify(self, *a, **k)
             finally:
                 rec.phase = prev if not rec.in_cycle else 'notify'
         patch(S.Simulator, '_notifyListeners', _notifyListeners)
 
         o_call = S.ClockDriverSimulator.clockAll
 
-        def clockAll(self):
+        def clockAll(self, *a, **k):
             rec.phase = 'clocking'
             rec.emit('clockAll', self, None, None)
-            return o_call(self)
+            return o_call(self, *a, **k)
         patch(S.ClockDriverSimulator, 'clockAll', clockAll)
 
         if sim is not None and wrap_leaves:
